@@ -183,9 +183,23 @@ fn run_t(sc: &TScenario, prefix: &[u8]) -> (Vec<Vec<Obs>>, Vec<String>, Verdict,
     (per_thread, recorded, verdict, trace)
 }
 
-fn check_t(per_thread: &[Vec<Obs>], recorded: &[String], verdict: &Verdict, trace: &Trace) -> Result<(), String> {
+/// The calls of `base_calls()` in which user code panics (answer function, real function, matcher).
+const USER_PANIC_CALLS: [(M, u8); 3] = [(M::A, 1), (M::Both, 2), (M::Both, 0)];
+
+fn check_t(sc: &TScenario, per_thread: &[Vec<Obs>], recorded: &[String], verdict: &Verdict, trace: &Trace) -> Result<(), String> {
     if trace.deadlock {
         return Err("deadlock: no enabled thread although some are unfinished".into());
+    }
+    // a call in which no user code panics either returns or raises a mock-induced panic: any other
+    // panic comes from the mock itself and is recorded nowhere
+    for (t, calls) in sc.threads.iter().enumerate() {
+        for (k, call) in calls.iter().enumerate() {
+            if let Some(Obs::Panic(msg)) = per_thread.get(t).and_then(|v| v.get(k)) {
+                if classify(msg) == PanicClass::Other && !USER_PANIC_CALLS.contains(call) && !msg.starts_with("thread died") {
+                    return Err(format!("call {call:?} of thread {t} panicked with a message that is neither a mock-induced error nor a user panic: {msg:?}"));
+                }
+            }
+        }
     }
     let mut mock_msgs: Vec<Vec<String>> = vec![];
     for t in per_thread {
@@ -243,7 +257,7 @@ fn explore_t(ctx: &vh::explore::Ctx, sc: &TScenario, bound: usize, cap: u64) -> 
             let (per_thread, recorded, verdict, trace) = run_t(sc, prefix);
             nodes += (trace.points.len().saturating_sub(prefix.len()) + 1) as u64;
             outcomes.insert(format!("{recorded:?}"));
-            if let Err(what) = check_t(&per_thread, &recorded, &verdict, &trace) {
+            if let Err(what) = check_t(sc, &per_thread, &recorded, &verdict, &trace) {
                 if !reported {
                     let choices = trace.choices();
                     let (p2, r2, v2, t2) = run_t(sc, &choices);
@@ -519,7 +533,7 @@ fn main() {
                 .unwrap_or_default();
             let (per_thread, recorded, verdict, trace) = run_t(&sc, &choices);
             println!("per-thread {per_thread:?}\nrecorded {recorded:?}\nverdict {verdict:?}");
-            match check_t(&per_thread, &recorded, &verdict, &trace) {
+            match check_t(&sc, &per_thread, &recorded, &verdict, &trace) {
                 Ok(()) => {
                     println!("replay: property holds on this schedule");
                     std::process::exit(0);
